@@ -138,7 +138,12 @@ func (pc *PacketConn) GetLogger() *logger.ReceptorLogger {
 
 // startUnreachable starts monitoring the netceptor unreachable channel and forwarding relevant messages.
 func (pc *PacketConn) StartUnreachable() {
-	pc.context, pc.cancel = context.WithCancel(pc.s.Context())
+	pc.startUnreachable(pc.s.Context())
+}
+
+// startUnreachable is StartUnreachable with an explicit parent for the connection's context.
+func (pc *PacketConn) startUnreachable(parent context.Context) {
+	pc.context, pc.cancel = context.WithCancel(parent)
 	pc.unreachableSubs = utils.NewBroker(pc.context, reflect.TypeOf(UnreachableNotification{}))
 	iChan := pc.s.GetUnreachableBroker().Subscribe()
 	go func() {
